@@ -217,7 +217,7 @@ def big_file_cases():
     # many short records per stream chunk (tens of thousands of records delivered by one 'data' event)
     out.append(('short-rows', b''.join(b'%d,a\n' % i for i in range(40000))))
     out.append(('one-char-rows', b''.join(b'%c\r\n' % (97 + i % 26) for i in range(140000))))      # 140000 records in one chunk when the chunk size is 1 MiB
-    out.append(('quoted-record-spanning-3000-lines', ('a,"' + '\r\n'.join('l%d,""q""' % i for i in range(3000)) + '",z\r\nnext,row,here\r\n').encode()))
+    out.append(('quoted-record-spanning-15000-lines', ('a,"' + '\r\n'.join('l%d,""q""' % i for i in range(15000)) + '",z\r\nnext,row,here\r\n').encode()))
     return out
 
 
